@@ -3989,7 +3989,13 @@ impl<'a> ZonedDifference<'a> {
         // `DifferenceZonedDateTime`). Comparing their clock times instead
         // goes wrong when the clock was set back in between: the later
         // instant then has the *earlier* clock time.
-        if dt1.date() == dt2.date() {
+        //
+        // The same holds when the civil dates are ordered against the
+        // instants (the clock was set back across midnight in between):
+        // the two are then less than that set-back apart.
+        if dt1.date() == dt2.date()
+            || t::sign(dt2.date(), dt1.date()) == -sign
+        {
             return zdt1.timestamp().until((Unit::Hour, zdt2.timestamp()));
         }
 
